@@ -5,9 +5,10 @@ import vf
 PROP = "C06"
 THEOREMS = ["reach_bfs_sound_complete", "root_layout_free", "root_layout_free_sem", "root_injective_refuted",
             "root_injective_same_skeleton_partial", "root_single_mutation_partial", "root_preimage_is_content_encoding",
-            "acc_agrees", "acc_agrees_any_representation_partial"]
+            "acc_agrees", "acc_refines_store", "acc_agrees_any_representation", "api_states_well_formed"]
 PRE = ("From Coq Require Import List NArith.\nFrom Echo Require Import Base.FinMap Base.Order Base.Bytes Model.Root.\n"
-       "Import ListNotations.\nOpen Scope N_scope.\n")
+       "Import ListNotations.\nOpen Scope N_scope.\n"
+       "Definition T248 : N := Eval vm_compute in (2 ^ 248).\nDefinition MAXID : N := Eval vm_compute in (2 ^ 256 - 1).\n")
 M256 = (1 << 256) - 1
 
 # ----------------------------------------------------------------------------- case syntax
@@ -122,7 +123,18 @@ _TABLE = None     # per-case table of large ids: each 256-bit literal is parsed 
 
 
 def cN(n):
-    if n < (1 << 32) or _TABLE is None:
+    """Gallina term for an id.  Long literals are slow to parse in Coq, so structured ids are written
+    as small expressions and each remaining 256-bit literal is let-bound once per case."""
+    if n < (1 << 32):
+        return "0x%x" % n
+    if n > M256 - (1 << 16):
+        return "(MAXID - %d)" % (M256 - n)
+    if n & (n - 1) == 0:
+        return "(2 ^ %d)" % (n.bit_length() - 1)
+    hi, lo = n >> 248, n & ((1 << 248) - 1)
+    if lo < (1 << 32):
+        return "(%d * T248 + 0x%x)" % (hi, lo)
+    if _TABLE is None:
         return "0x%x" % n
     if n not in _TABLE:
         _TABLE[n] = "i%d" % len(_TABLE)
@@ -298,16 +310,20 @@ def finish_model(plans, hs):
 # ----------------------------------------------------------------------------- generators
 
 def rid(rng, pool=None):
+    """32-byte id: a mix of full random values and structured ones (small, high byte + low word,
+    near the maximum, powers of two, one-bit neighbours of an existing id)."""
     style = rng.random()
-    if style < 0.45:
+    if style < 0.2:
         return rng.getrandbits(256)
-    if style < 0.6:
-        return rng.randint(0, 5)
-    if style < 0.7:
-        return M256 - rng.randint(0, 3)
-    if style < 0.8:
+    if style < 0.4:
+        return rng.randint(0, 40)
+    if style < 0.65:
+        return (rng.randint(0, 255) << 248) | rng.getrandbits(rng.choice([8, 16, 31]))
+    if style < 0.75:
+        return M256 - rng.randint(0, 300)
+    if style < 0.85:
         return 1 << rng.choice([8, 64, 128, 248, 255])
-    if pool and style < 0.95:
+    if pool:
         return rng.choice(pool) ^ (1 << rng.choice([0, 7, 8, 255]))      # long shared prefix / suffix
     return rng.getrandbits(256)
 
@@ -632,7 +648,7 @@ def both(tag, cases, bins):
     impl = [l.split(" oracle=")[0] for l in full]
     oracle = [l.split(" oracle=")[1].split()[0] if " oracle=" in l else "FAIL:no-oracle" for l in full]
     stats = [l.rsplit(" stats=", 1)[1] if " stats=" in l else "-" for l in full]
-    vals = vf.coq_eval(tag, PRE, [to_term(c) for c in cases])
+    vals = vf.coq_eval(tag, PRE, [to_term(c) for c in cases], timeout=3000)
     hs = Hashes()
     plans = render_model(vals, hs)
     hs.run()
@@ -756,21 +772,24 @@ def run(tier, seed, replay=None):
 MANIFEST = {
     "category": "proof",
     "text": ("Coq theorems (no axioms) over an executable model of GraphStore (insertion-ordered edge buckets), WarpState, "
-             "collect_reachable_graph, compute_state_root and the columnar SnapshotAccumulator: the queue-driven traversal equals an "
-             "inductive reachability relation (fuel never runs out); the state-root preimage is the encoding of the reachable content and "
-             "is the same for any two well-formed states that agree on what is reachable (bucket insertion order, unreachable nodes/edges/"
-             "attachments/instances are free); with equal section counts equal roots imply equal content or a hash collision, and every "
-             "single content mutation changes the preimage. Full injectivity is REFUTED (root_injective_refuted: the preimage has no "
-             "section counts; witness replayed on the real code, listed as known finding). The model is tied to /repo by running it "
-             "(vm_compute) and the real crates on the same generated multi-instance states and op sequences and comparing state root, "
-             "accumulator root, reachable content and patch-replay verdicts byte for byte (model preimages hashed with blake3); the harness "
-             "additionally checks on the implementation alone that construction-order shuffles never change the root, that every single "
-             "mutation changes the root iff it changes the reachable content, that both state-root implementations agree before and "
-             "after op sequences, and that WSC write -> read -> validate denotes the same rows."),
+             "apply_ops_to_state, collect_reachable_graph, compute_state_root and the columnar SnapshotAccumulator: the queue-driven "
+             "traversal equals an inductive reachability relation (fuel never runs out); the state-root preimage is the encoding of the "
+             "reachable content and is the same for any two well-formed states that agree on what is reachable (bucket insertion order, "
+             "unreachable nodes/edges/attachments/instances are free); every state built through the API or by patch replay is well "
+             "formed; with equal section counts equal roots imply equal content or a hash collision, and every single content mutation "
+             "changes the preimage; the accumulator feeds the hasher the same bytes as snapshot.rs on every state (acc_agrees) and keeps "
+             "doing so after any op sequence the store accepts, without panicking (acc_refines_store). Full injectivity is REFUTED "
+             "(root_injective_refuted: the preimage has no section counts; witness replayed on the real code, listed as known finding). "
+             "The model is tied to /repo by running it (vm_compute) and the real crates on the same generated multi-instance states and op "
+             "sequences and comparing state root, accumulator root, reachable content and patch-replay verdicts byte for byte (model "
+             "preimages hashed with blake3); the harness additionally checks on the implementation alone that construction-order shuffles "
+             "never change the root, that every single mutation changes the root iff it changes the reachable content, that both "
+             "state-root implementations agree before and after op sequences, and that WSC write -> read -> validate denotes the same rows."),
     "note": ("Trusted: Coq kernel + vm_compute; python generator/renderer; harness c06.rs (its own reachability/content abstraction over "
              "public read accessors); blake3 crate. Modelled rather than verified: graph.rs/warp_state.rs/snapshot.rs/snapshot_accum.rs/"
              "tick_patch.rs::apply_ops_to_state as Gallina functions; GraphStore reverse indexes are not modelled (coherence checked on "
-             "the Rust side); WSC byte layout (write.rs/view.rs/validate.rs) is exercised by round-trip on the implementation only; "
-             "debug builds panic (debug_assert!) on a reachable portal to a missing instance, the release behaviour (skip) is modelled "
-             "but not exercised. Known finding: state-root-preimage-not-uniquely-decodable (format level)."),
+             "the Rust side); WSC tables and byte layout (build.rs/write.rs/view.rs/validate.rs) are exercised by round-trip on the "
+             "implementation only (no WSC theorem); debug builds panic (debug_assert!) on a reachable portal to a missing instance, the "
+             "release behaviour (skip) is modelled but not exercised. Known finding: state-root-preimage-not-uniquely-decodable "
+             "(format level). Fixed during the build: accumulator-root-omits-domain-prefix (commit e41f993)."),
 }
